@@ -34,8 +34,10 @@
      accumulate-and-shift per tap; one generated sample + (fft-1) skipped per block;
      sqrt(path loss) applied to the output and, separately, to the reported response.
    With all Dev flags FALSE the laws below (machine = property) hold on every transition.
-   Dev flags switch single machine steps to what the code does today (SliceBlockSizeFloorDiv,
-   MuSetPathlossNoneRaises) or to a plausible regression (the others); TLC must refute each. *)
+   Dev flags switch single machine steps to what the code did before it was repaired
+   (SliceBlockSizeFloorDiv, MuSetPathlossNoneRaises) or to a plausible regression (the others, e.g.
+   PathlossZeroIsNone: a path loss of exactly 0 tested by truthiness); TLC must refute each.
+   Path-loss amplitudes range over 0 (blocked link), ordinary values, 1 and None; tap powers over 0 too. *)
 EXTENDS Integers, Sequences, FiniteSets, TLC, Emit, GRat, Cyc2
 
 CONSTANTS Configs,   \* sequence of configuration records (see harness/props/c03.py)
@@ -101,7 +103,7 @@ MDisc(prof) ==
 DiscSorted(D)  == \A i, j \in 1..Len(D.delays) : i < j => D.delays[i] < D.delays[j]
 DiscUnique(D)  == \A i, j \in 1..Len(D.delays) : i # j => D.delays[i] # D.delays[j]
 DiscInteger(D) == /\ Len(D.delays) = Len(D.powers) /\ Len(D.delays) >= 1
-                  /\ \A i \in 1..Len(D.delays) : D.delays[i] \in Nat /\ RIsPos(D.powers[i])
+                  /\ \A i \in 1..Len(D.delays) : D.delays[i] \in Nat /\ D.powers[i][1] >= 0     \* a tap of power 0 (-inf dB) is valid
 DiscSumOne(D)  == RSumTo(D.powers, Len(D.powers)) = ROne
 DiscMerged(prof, D) ==
   /\ \A i \in 1..Len(prof) : \E j \in 1..Len(D.delays) : IsRoundOf(D.delays[j], prof[i][1])
@@ -276,12 +278,15 @@ MRep(c, p, T) == IF Dev.PathlossNotInReported THEN T ELSE ScaleIR(c, p, T)
 MDelay(D, i) == IF Dev.ShiftByTapIndex THEN i - 1 ELSE D.delays[i]
 MRa(d, oa, ia) == IF Dev.SwitchedNotTransposed THEN oa ELSE RU(d, oa, ia)
 MTa(d, oa, ia) == IF Dev.SwitchedNotTransposed THEN ia ELSE TU(d, oa, ia)
+\* the factor the wrapper applies to the time-domain output; a path loss of exactly 0 (blocked link, e.g. the
+\* off-diagonal entries of an identity path-loss matrix) is falsy in Python but NOT "no path loss"
+MPAt(c, p, ru, tu) == IF Dev.PathlossZeroIsNone /\ PA(c, p, ru, tu) = RZero THEN ROne ELSE PA(c, p, ru, tu)
 MTimeY(c, D, T, d, p, n, s) ==
   LET len == IF Dev.TailDropped THEN n ELSE n + Mem(D)
       XS == XArr(c, d, s, n)
   IN  E([ou \in 1..OutU(c, d) |-> E([oa \in 1..OutA(c, d) |-> E([k1 \in 1..len |->
          GSum(InU(c, d), [iu \in 1..InU(c, d) |->
-            GScaleRat(PA(c, p, RU(d, ou, iu), TU(d, ou, iu)),
+            GScaleRat(MPAt(c, p, RU(d, ou, iu), TU(d, ou, iu)),
                GSum(NTaps(D), [i \in 1..NTaps(D) |-> GSum(InA(c, d), [ia \in 1..InA(c, d) |->
                   LET m == (k1 - 1) - MDelay(D, i) IN
                   IF m < 0 \/ m >= n THEN GZero
@@ -377,7 +382,7 @@ SetPathloss ==
     /\ UNCHANGED <<cid, gpos, dir, has>>
 
 \* TdlChannelProfile.get_discretize_profile for one profile of the enumerated domain
-ProfDomain(c) == {p \in [1..c.ntaps -> c.qds \X c.pws] : p[1][1] \in c.q1}
+ProfDomain(c) == {p \in [1..c.ntaps -> c.qds \X c.pws] : p[1][1] \in c.q1 /\ RIsPos(Total(p))}   \* some tap has power
 DiscretizeCase ==
   /\ C.kind = "disc"
   /\ \E p \in ProfDomain(C) : op' = [k |-> "Disc", prof |-> p]
